@@ -324,6 +324,11 @@ int read_pax_header(sqfs_istream_t *fp, sqfs_u64 entsize,
 			}
 
 			*set_by_pax |= field->flag;
+
+			/* GNU.sparse.map replaced (and freed) the list that
+			   the offset/numbytes records were appending to */
+			if (field->type == PAX_TYPE_CONST_STRING)
+				sparse_last = NULL;
 		} else if (!strcmp(key, "GNU.sparse.offset")) {
 			if (parse_uint(value, -1, &diff, 0, 0, &offset))
 				goto fail_malformed;
